@@ -139,6 +139,18 @@ def rule_radix_py(ctx, py):
         ctx.check(bool(hit), R, r, f._qual, pyfe.src(val)[:90], "index = x + y*w + z*w*h (%s form)" % (hit[0] if hit else "?"),
                   "the returned index %r is not x + y*w + z*w*h of the given position" % (got,))
         seen |= set(hit)
+        # each coordinate is truncated on its own (is_within_bounds and the coordinate-object form do the same): one int() around
+        # the weighted sum rounds x + w*y + w*h*z as a whole, and a fractional x or y then moves the cell along another axis
+        full = pysym.inline(val, f)
+        for c_ in [x for x in ast.walk(full) if isinstance(x, ast.Call) and isinstance(x.func, ast.Name) and x.func.id == "int"
+                   and len(x.args) == 1]:
+            a_ = c_.args[0]
+            leaf = isinstance(a_, (ast.Name, ast.Attribute)) or (isinstance(a_, ast.Subscript) and isinstance(a_.slice, ast.Constant))
+            n += 1
+            ctx.check(leaf, R, r, f._qual, "int(%s)" % pyfe.src(a_)[:50], "truncation of one coordinate (or of the linear index)",
+                      "`int(%s)` truncates a weighted sum of coordinates, not each coordinate: for a fractional coordinate the "
+                      "index is not that of the cell containing the position (and differs from the coordinate-object form)"
+                      % pyfe.src(a_)[:50])
     ctx.check(seen == {"number", "array", "object"}, R, f, f._qual, "all three position forms are encoded", "", "a position form is "
               "missing: %s" % sorted({"number", "array", "object"} - seen))
     # decode
